@@ -22,7 +22,7 @@ Local Open Scope nat_scope.
 def case_term(h):
     return "(mkcase %d %d %d %d [%s] %s [%s] [\n  %s])" % (
         h["id"], h["nodes"], h["fifo"], h["off"], "; ".join(str(x) for x in (h.get("expect") or [])),
-        "true" if (h["kind"].startswith("cluster") or (h["kind"] == "replay" and h["nodes"] == len({t.split(",")[0] for t in h["trace"]}) + len(h.get("byz") or []))) else "false",
+        "true" if h["kind"].startswith("cluster") else "false",
         "; ".join(str(x) for x in (h.get("byz") or [])), ";\n  ".join(h["trace"]))
 
 
